@@ -129,7 +129,7 @@ Qed.
 (* ==========================================================================================
    C03_structure: the three hypotheses of C03_structure_partial discharged
    (integration C03 x C07 x C18 x C19 x C01; Model/IntegSeq.v, Proofs/IntegVersion.v, IntegPatterns.v,
-   IntegSequence.v; ADDED to this file, nothing above changed)
+   IntegSequence.v; ADDED to this file; above, only the file header comment was extended)
    ========================================================================================== *)
 From VC2 Require Import Gen.Version Model.Regex Model.NFA Model.Matcher Model.MatchSeq Proofs.MatchSeqProofs
   Model.IntegSeq Proofs.IntegPatterns Proofs.IntegVersion Proofs.IntegSequence.
